@@ -110,7 +110,7 @@ FUNCS = [
     dict(path="_split_by_fh", coq="gen_split_by_fh", kind="rfun", ret="P",
          params=[("@index", "index", "L"), ("@rel", "rel", "B"), ("y", "n", "Y"), FH,
                  ("X", "x_absent", "ABSENT")],
-         env={"y.index": ("index", "L"), "fh.is_relative": ("rel", "B")},
+         env={"y.index": ("index", "L"), "fh.is_relative": ("rel", "B"), "y.loc": ("y_loc", "LOC")},
          coqtypes={"x_absent": "unit"}),
     dict(path="BaseWindowSplitter.get_n_splits", coq="gen_window_n_splits", kind="rfun",
          params=[("@wl", "wl", "Z"), ("@step", "step", "Z"), ("@iw", "iw", "O"),
